@@ -166,7 +166,18 @@ def _copy_expr(n):
     return ast.parse(ast.unparse(n), mode="eval").body
 
 
+_locals_cache = {}
+_calls_cache = {}
+_loads_cache = {}
+
+
 def func_locals(fn):
+    if id(fn) not in _locals_cache:
+        _locals_cache[id(fn)] = _func_locals(fn)
+    return _locals_cache[id(fn)]
+
+
+def _func_locals(fn):
     names = set(a.arg for a in fn.args.args + fn.args.kwonlyargs)
     if fn.args.vararg:
         names.add(fn.args.vararg.arg)
@@ -185,13 +196,23 @@ def func_locals(fn):
     return names
 
 
+_gen_cache = {}
+
+
+def _is_generator(fn):
+    k = id(fn)
+    if k not in _gen_cache:
+        _gen_cache[k] = any(isinstance(n, (ast.Yield, ast.YieldFrom)) for n in ast.walk(fn))
+    return _gen_cache[k]
+
+
 ALIAS_TYPES = (ast.Name, ast.Attribute, ast.Subscript, ast.Constant)
 _ATOMIC = re.compile(r"^[\w.\[\]'\"()]+$|^[^ ]+$")
 
 
 class Walker:
     def __init__(self, program, view, keep=None, inline=None, track=None, loop_iters=(0, 1), max_depth=10,
-                 literal_args=None, record_stable_facts=True, extra_stable=None):
+                 literal_args=None, record_stable_facts=True, extra_stable=None, reads=None, local_reads=False):
         self.program, self.view = program, view
         self.keep = keep or (lambda e: True)
         self.inline = inline or (lambda e: True)
@@ -201,7 +222,10 @@ class Walker:
         self.literal_args = literal_args or {}
         self.record_stable_facts = record_stable_facts
         self.extra_stable = extra_stable
+        self.reads = reads                  # predicate on self-attribute names whose loads are reported as `reads` events
+        self.local_reads = local_reads      # also report loads of function locals (root frame only)
         self.npaths = 0
+        self._lc = {}
 
     # ---- public ----------------------------------------------------------------------------
     def paths(self, mname, facts=None):
@@ -345,6 +369,11 @@ class Walker:
             return self.expr(st.value, states, frame)
         if isinstance(st, ast.Assign):
             states = self.expr(st.value, states, frame)
+            if self.reads is not None:
+                for tgt in st.targets:
+                    attrs, locs = self._loads(tgt, frame)
+                    if attrs:
+                        states = [self.emit(s, Event("reads", tgt, frame, attrs=tuple(attrs), locals=())) for s in states]
             out = []
             for s in states:
                 for tgt in st.targets:
@@ -358,6 +387,11 @@ class Walker:
             return [self.assign(s, st.target, st.value, st, frame) for s in states]
         if isinstance(st, ast.AugAssign):
             states = self.expr(st.value, states, frame)
+            if self.reads is not None or self.local_reads:
+                load = _parse_expr(ast.unparse(st.target))
+                attrs, locs = self._loads(load, frame)
+                if attrs or locs:
+                    states = [self.emit(s, Event("reads", st, frame, attrs=tuple(attrs), locals=tuple(locs))) for s in states]
             out = []
             for s in states:
                 tc = self.canon(st.target, frame, s.env)
@@ -488,6 +522,14 @@ class Walker:
     # ---- expressions ---------------------------------------------------------------------------------
     def calls_in(self, expr):
         """Call nodes in evaluation order (inner before outer), not descending into lambdas."""
+        c = _calls_cache.get(id(expr))
+        if c is not None and c[0] is expr:
+            return c[1]
+        out = self._calls_in(expr)
+        _calls_cache[id(expr)] = (expr, out)
+        return out
+
+    def _calls_in(self, expr):
         out = []
 
         def rec(n, incomp):
@@ -501,7 +543,44 @@ class Walker:
         rec(expr, False)
         return out
 
-    def expr(self, expr, states, frame):
+    def _loads(self, expr, frame):
+        k = (id(expr), frame.depth == 0)
+        c = self._lc.get(k)
+        if c is not None and c[0] is expr:
+            return c[1], c[2]
+        attrs, locs = self._loads_uncached(expr, frame)
+        self._lc[k] = (expr, attrs, locs)
+        return attrs, locs
+
+    def _loads_uncached(self, expr, frame):
+        attrs, locs = [], []
+        bound = set()
+        for n in ast.walk(expr):
+            if isinstance(n, ast.comprehension):
+                for t in ast.walk(n.target):
+                    if isinstance(t, ast.Name):
+                        bound.add(t.id)
+            elif isinstance(n, ast.Lambda):
+                for a in n.args.args:
+                    bound.add(a.arg)
+        for n in ast.walk(expr):
+            if isinstance(n, ast.Attribute) and isinstance(n.value, ast.Name) and n.value.id == "self" and isinstance(n.ctx, ast.Load):
+                if self.reads is not None and self.reads(n.attr):
+                    par = getattr(n, "_parent", None)
+                    if isinstance(par, ast.Call) and par.func is n and self.view.resolve(n.attr) is not None:
+                        continue        # a method call, not a data read
+                    if n.attr not in attrs:
+                        attrs.append(n.attr)
+            elif self.local_reads and frame.depth == 0 and isinstance(n, ast.Name) and isinstance(n.ctx, ast.Load):
+                if n.id in frame._locals and n.id not in bound and n.id not in locs:
+                    locs.append(n.id)
+        return attrs, locs
+
+    def expr(self, expr, states, frame, reads=True):
+        if reads and (self.reads is not None or self.local_reads):
+            attrs, locs = self._loads(expr, frame)
+            if attrs or locs:
+                states = [self.emit(s, Event("reads", expr, frame, attrs=tuple(attrs), locals=tuple(locs))) for s in states]
         for call, incomp in self.calls_in(expr):
             nxt = []
             for s in states:
@@ -533,7 +612,7 @@ class Walker:
         ev = Event("call", call, frame, meth=meth, recv=recv, args=args, kw=kw, target=target, incomp=incomp,
                    selfcall=target is not None)
         if (target is not None and not incomp and frame.depth < self.max_depth
-                and target[1] not in frame.stack() and self.inline(ev)):
+                and target[1] not in frame.stack() and not _is_generator(target[1]) and self.inline(ev)):
             return self.splice(call, s, frame, target, ev)
         s = self.emit(s, ev)
         # unknown callee may write attributes: forget non-configuration facts
@@ -633,8 +712,30 @@ class Walker:
             out.append((s2, pol))
         return out
 
+    def test_expr(self, test, states, frame):
+        """evaluate a branch test; operands of and/or that cannot be reached (short circuit) are not evaluated"""
+        if isinstance(test, ast.BoolOp) and (self.reads is not None or self.local_reads):
+            stop_on = isinstance(test.op, ast.Or)
+            live = states
+            done = []
+            for v in test.values:
+                live = self.test_expr(v, live, frame)
+                nxt = []
+                for s in live:
+                    f = guards.norm(v, lambda e: self.canon(e, frame, s.env))
+                    r = guards.ev(f, s.facts)
+                    if r is not None and r == stop_on:
+                        done.append(s)      # short circuit: the remaining operands are not evaluated
+                    else:
+                        nxt.append(s)
+                live = nxt
+                if not live:
+                    break
+            return done + live
+        return self.expr(test, states, frame)
+
     def if_(self, st, states, frame):
-        states = self.expr(st.test, states, frame)
+        states = self.test_expr(st.test, states, frame)
         t_states, f_states = [], []
         for s in states:
             for s2, pol in self.branch(st.test, s, frame):
